@@ -12,13 +12,13 @@ fn fmt_stub(_: rstd::fmt::Arguments<'_>) -> rstd::string::String {
     rstd::string::String::new()
 }
 
-fn fake_global() -> &'static ManuallyDrop<Arc<GlobalVmState>> {
+pub(crate) fn fake_global() -> &'static ManuallyDrop<Arc<GlobalVmState>> {
     let a: Arc<MaybeUninit<GlobalVmState>> = Arc::new_uninit();
     let a: Arc<GlobalVmState> = unsafe { a.assume_init() };
     Box::leak(Box::new(ManuallyDrop::new(a)))
 }
 
-fn mk_thread(
+pub(crate) fn mk_thread(
     global: &Arc<GlobalVmState>,
     parent: Option<&'static Thread>,
     generation: Generation,
@@ -35,6 +35,11 @@ fn mk_thread(
     };
     let b: &'static mut ManuallyDrop<Thread> = Box::leak(Box::new(ManuallyDrop::new(t)));
     &**b
+}
+
+/// the context lock of a hand-built thread, for harnesses that live in other modules
+pub(crate) fn lock_context(t: &'static Thread) -> MutexGuard<'static, Context> {
+    t.context.lock().unwrap()
 }
 
 /// Tree:        root(0)                other_vm(0)
